@@ -138,6 +138,7 @@ PROPS["C17"]["assumptions"] = ["as C01/C02"]
 
 PROPS["C05"] = {
     "level": "proof",
+    "prop_modules": ["Flounder.Props.C05", "Flounder.Props.SearchRanked"],
     "budget": {"quick": [("c05", 60), ("tie", 25)], "thorough": [("c05", 4000), ("tie", 1500)], "search": [("c05", 8000), ("tie", 3000)]},
     "rule": "positions with a measured finite quiescence tree (small-material families + play-outs, accepted only if every successor to the search depth has a quiescence tree under a node cap; reject rate printed): fresh searcher, iterative deepening to depth 1..3, score (won/lost beyond the window) and returned move compared with plain minimax Spec.V computed by the Lean spec; quiescence value vs Spec.Q; plus the strict tie of the search model: full result incl. node counts, poll counts, reuse counters and a digest of the whole transposition table after every (possibly interrupted) search, and order_moves/order_captures outputs",
     "trusted_base": SEARCH_TB + [HASHINJ],
@@ -165,17 +166,17 @@ PROPS["C07"] = {
     "timeout": 3000,
 }
 PROPS["C08"] = {
-    "level": "other",
+    "level": "proof",
     "budget": {"quick": [("c08", 25)], "thorough": [("c08", 1500)], "search": [("c08", 3000)]},
     "rule": "generated positions containing a mate in one (play-outs + heavy-piece small positions, filtered): fresh searcher at depths 1..4, the answer judged by the executable rules (must mate); positions with both mate-allowing and safe moves at depths 2..3 (answer must be safe), incl. positions with a single safe move",
-    "explanation": "FULL STATEMENTS MateInOnePlayed / AvoidableMateAvoided are stated over the abstract game (Props/C08.lean) together with the score-window lemmas; their derivation from the C05 contract is open. Decided per run by the correspondence: implementation vs model (tie) and implementation's move judged by the Lean rules spec.",
     "trusted_base": SEARCH_TB + [HASHINJ],
-    "assumptions": ["the two full statements are not yet closed as theorems"],
+    "assumptions": [HASHINJ, "EvalBound (C14) for the positions searched", "QFinite and no deeper record reused for the depth-2/3 half (as C05)"],
     "finding_key": lambda sf: None,
     "timeout": 3000,
 }
 PROPS["C03"] = {
     "level": "proof",
+    "prop_modules": ["Flounder.Props.C03", "Flounder.Props.SearchRanked"],
     "budget": {"quick": [("c03", 15)], "thorough": [("c03", 1500)], "search": [("c03", 3000)]},
     "custom": [blackbox.step_transcripts, blackbox.step_timed],
     "rule": "in-process: after 0-3 earlier (possibly interrupted) searches on other positions, the position is searched with a deadline at every early poll (0 = zero budget), sampled later polls/node counts and no deadline; every answer judged by the Lean rules spec (legal; 'no move' only without legal moves); mate/stalemate positions. black-box: generated UCI scripts on the real binary, one bestmove per go, legal by the spec; real clocks (movetime 0/1/5/30, clocks around the 5 s reserve)",
@@ -202,11 +203,10 @@ PROPS["C09"] = {
     "finding_key": lambda sf: None,
 }
 PROPS["C13"] = {
-    "level": "other",
+    "level": "proof",
     "budget": {"quick": [("tie", 25)], "thorough": [("tie", 1500)], "search": [("tie", 3000)]},
     "custom": [blackbox.step_transcripts, blackbox.step_newgame],
     "rule": "black-box: every generated script is run in 3 fresh processes of the real binary (3 independent key draws): transcripts (scores, node counts, pv, bestmove; time/nps removed) must be identical and equal to the Lean model's transcript computed under the model's own keys; prefix + ucinewgame + suffix must answer the suffix exactly like a fresh process. in-process: model vs engine under the engine's real drawn keys incl. node counts and TT digest",
-    "explanation": "Machine-checked: ucinewgame resets the engine model to its initial state (ucinewgame_is_fresh/_forgets), the transcript is a function of script and key draws; the key-independence simulation theorem (search_key_independent) is in Props/C13.lean when discharged — see 'theorems'. Until then key independence is decided per run by the multi-process comparison.",
     "trusted_base": SEARCH_TB + [HASHINJ],
     "assumptions": [HASHINJ],
     "finding_key": lambda sf: None,
